@@ -15,8 +15,9 @@ RULE = (
     "override, shuffle) and sow_samples/grow/reap crop runs (batch size / "
     "count, grow order) with n = 1..8, arguments drawn from choice lists or "
     "from a harness callable that logs what it returned, runner constants, "
-    "engine pickle / csv, and a FRESH Sampler object on the same file between "
-    "any two runs; numpy.random seeded from the case.  Oracle after each run: "
+    "engine pickle / csv, a FRESH Sampler object on the same file between "
+    "any two runs, and a second long-lived (rival) Sampler taking turns with "
+    "the first; numpy.random seeded from the case.  Oracle after each run: "
     "len(full_df) grew by exactly n; the earlier rows are unchanged "
     "(column-wise); every new row's arguments are among the allowed choices "
     "(or exactly what the callable returned, in order) and its outputs equal "
@@ -91,12 +92,21 @@ def run_case(case):
 
         np.random.seed(case["np_seed"])
         s = new_sampler()
+        main_s, rival_s = s, None
         prev_rows, prev_cols = [], None
         for k, op in enumerate(case["ops"]):
             o = op["op"]
             tag = f"run{k}:{o}"
+            if o != "session" and op.get("rival") and prev_cols is not None:
+                # two long-lived samplers take turns on the same file
+                if rival_s is None:
+                    rival_s = new_sampler()
+                s = rival_s
+                tag += "(rival)"
+            elif o != "session":
+                s = main_s
             if o == "session":
-                s = new_sampler()
+                s = main_s = new_sampler()
                 sessions += 1
                 if prev_cols is not None and op.get("peek", True):
                     with under_test("new session full_df"):
@@ -111,7 +121,9 @@ def run_case(case):
             override = None
             allowed_a = list(A)
             if op.get("override_a"):
-                allowed_a = [A[i % len(A)] for i in op["override_a"]]
+                # choices that are NOT among the defaults, so that a later
+                # run without override can be told apart
+                allowed_a = sorted({1000 + i for i in op["override_a"]})
                 override = {"a": allowed_a}
             del GEN_LOG[:]
             models.LOG.clear()
@@ -232,7 +244,8 @@ def strategy(draw):
             "op": st.just("sample"), "n": st.integers(1, 8),
             "override_a": st.none() | st.lists(st.integers(0, 9), min_size=1,
                                                max_size=2),
-            "shuffle": st.sampled_from([False, False, True, 5])}),
+            "shuffle": st.sampled_from([False, False, True, 5]),
+            "rival": st.sampled_from([False, False, True])}),
         st.fixed_dictionaries({
             "op": st.just("crop"), "n": st.integers(1, 8),
             "override_a": st.none() | st.lists(st.integers(0, 9), min_size=1,
@@ -240,7 +253,8 @@ def strategy(draw):
             "batch": st.none() | st.tuples(
                 st.sampled_from(["batchsize", "num_batches"]),
                 st.integers(1, 5)).map(list),
-            "order": st.lists(st.integers(0, 9), max_size=3)}),
+            "order": st.lists(st.integers(0, 9), max_size=3),
+            "rival": st.sampled_from([False, False, True])}),
     )
     ops = draw(st.lists(st.one_of(run, run, st.fixed_dictionaries(
         {"op": st.just("session"), "peek": st.booleans()})),
